@@ -8,7 +8,7 @@ from . import core
 
 PID = "C14"
 LEVEL = "fault_enumeration"
-NAMES = ["a", "b", "c", "d"]
+NAMES = ["a", "b", "c", "d", "e", "f", "h", "i", "j", "k", "l", "m"]
 KINDS_FILE = ["healthy", "missing", "faulting", "wrongname", "broken", "nonutf8"]
 KINDS_REG = ["healthy", "missing", "faulting"]
 ERR_OF = {"missing": ["Logic.LibraryNotFound"], "wrongname": ["Logic.LibraryNotFound"], "faulting": ["Logic.UnboundedSymbol"],
@@ -224,11 +224,35 @@ def run(tier, seed):
             adj = [[j for j in range(4) if rng.random() < 0.3] for i in range(4)]
             cases.append((rng.choice(["file", "reg"]), 4, adj, tuple(rng.choice(KINDS_REG) for _ in range(4))))
         ctx.observed["exhaustive_nodes"] = "2 (files, 6 kinds); 3 (registered sources, 3 kinds)"
+    # long chains, long cycles, wide fans and lattices on 8-12 libraries
+    for _ in range(40 if tier == "quick" else 600):
+        n = rng.choice([8, 10, 12])
+        shape = rng.randrange(5)
+        adj = [[] for _ in range(n)]
+        if shape in (0, 1):
+            for i in range(n - 1):
+                adj[i].append(i + 1)            # a chain a -> b -> ... ; shape 1 closes it into one long cycle
+            if shape == 1:
+                adj[n - 1].append(rng.choice([0, 0, n // 2]))
+        elif shape == 2:
+            adj[0] = list(range(1, n))          # a wide fan
+        elif shape == 3:
+            for i in range(n - 2):
+                adj[i] += [i + 1, i + 2]        # a lattice: every library reached by many paths, no cycle
+        else:
+            for i in range(n):
+                adj[i] = sorted(rng.sample(range(i + 1, n), min(n - i - 1, rng.randint(0, 3))))
+            if rng.random() < 0.4:
+                adj[n - 1].append(rng.randrange(n))
+        kinds = ["healthy"] * n
+        if rng.random() < 0.4:
+            kinds[rng.randrange(n)] = rng.choice(KINDS_REG)
+        cases.append((rng.choice(["file", "reg"]), n, adj, tuple(kinds)))
     ctx.rule = ("every directed graph (self loops included) on 1-2 libraries x every node-kind assignment (6 kinds for files, 3 for registered sources) x every history of 3 import "
                 "attempts; 3 libraries: %s; %s. Libraries as files under a program directory while the process's working directory holds decoy libraries of the same names. "
                 "distinct_nontrivial = distinct (mode, graph, kinds) cases whose every history agreed with the loader model"
                 % ("all 512 graphs x 27 kind assignments of registered sources + 12000 sampled file cases" if tier != "quick" else "1200 sampled cases",
-                   "4 libraries sampled" if tier != "quick" else "no 4-library cases in quick"))
+                   ("4 libraries sampled" if tier != "quick" else "no 4-library cases in quick") + "; chains, long cycles, fans and lattices on 8-12 libraries"))
     ctx.assumptions = ["any error kind among the faults reachable from the imported library is accepted; a cyclic-import error only if a cycle is reachable",
                        "import order inside a declaration follows the text"]
     leg = "dev" if tier == "quick" else "release"
